@@ -234,10 +234,16 @@ class CEvent:
 
 
 class CBarrier:
+    """threading.Barrier: the k-th wait of every party is released when all parties made their k-th call;
+    reset() breaks the rendezvous in progress (its waiters get BrokenBarrierError) and starts afresh;
+    abort() breaks it for good."""
+
     def __init__(self, parties, action=None, timeout=None):
         self.parties = parties
         self._count = 0
         self._gen = 0
+        self._broken_gens = set()
+        self._aborted = False
         self.label = _CURRENT.new_label('bar') if _CURRENT else 'bar?'
 
     def wait(self, timeout=None):
@@ -245,6 +251,8 @@ class CBarrier:
         if s:
             s.yield_op(Op('Barrier.arrive', self))
             s.log('arrive', self.label)
+        if self._aborted:
+            raise threading.BrokenBarrierError
         gen = self._gen
         idx = self._count
         self._count += 1
@@ -254,19 +262,39 @@ class CBarrier:
         if s:
             s.yield_op(Op('Barrier.depart', self, enabled=lambda: self._gen > gen))
             s.log('depart', self.label)
+        if gen in self._broken_gens or (self._aborted and self._gen == gen):
+            raise threading.BrokenBarrierError
         return idx
 
     @property
     def n_waiting(self):
         return self._count
 
-    broken = False
+    @property
+    def broken(self):
+        return self._aborted
+
+    def _break_current(self):
+        if self._count > 0:
+            self._broken_gens.add(self._gen)
+            self._count = 0
+            self._gen += 1
 
     def reset(self):
-        pass
+        s = _CURRENT
+        if s:
+            s.yield_op(Op('Barrier.reset', self))
+            s.log('reset', self.label)
+        self._break_current()
+        self._aborted = False
 
     def abort(self):
-        pass
+        s = _CURRENT
+        if s:
+            s.yield_op(Op('Barrier.abort', self))
+            s.log('abort', self.label)
+        self._break_current()
+        self._aborted = True
 
 
 class CQueue:
